@@ -819,19 +819,22 @@ fn main() {
             Bounds {
                 shape: ShapeBounds {
                     one_extra_max_missing: n,
-                    two_extras_both_orders: thorough || n < 6,
-                    repeat_every_field: e.ser_row.is_some(),
-                    two_extras_max_missing: if thorough { n } else if n <= 4 { n } else { 1 },
-                    retype_all_perms: thorough || n <= 4,
+                    two_extras_both_orders: (thorough && n < 7) || n < 6,
+                    repeat_every_field: e.ser_row.is_some() && n < 7,
+                    two_extras_max_missing: if n >= 7 { 1 } else if thorough { n } else if n <= 4 { n } else { 1 },
+                    retype_all_perms: (thorough && n < 7) || n <= 4,
                 },
                 value_rows: if thorough { 4 } else { 2 },
                 null_pattern_rows: if thorough { 4 } else { 1 },
                 de_null_bits: if thorough { 8 } else { 6 },
-                de_max_nulls: if thorough { 8 } else { 2 },
+                de_max_nulls: if n >= 7 { if e.de_value.is_some() { 3 } else { 2 } } else if thorough { 8 } else { 2 },
             }
         })
         .collect();
-    let selected: Vec<usize> = (0..fam.len()).filter(|i| only.as_deref().is_none_or(|o| o == fam[*i].name)).collect();
+    let selected: Vec<usize> = (0..fam.len())
+        .filter(|i| only.as_deref().is_none_or(|o| o == fam[*i].name))
+        .filter(|i| thorough || !h_cql::c16_family::THOROUGH_ONLY.contains(&fam[*i].name))
+        .collect();
     let shapes_by_entry: Vec<Vec<Vec<DbField>>> = vcore::par::map(jobs, selected.clone(), |&i| shapes(&fam[i], &bounds_by_entry[i].shape));
     for (&ei, sh) in selected.iter().zip(shapes_by_entry) {
         let e = &fam[ei];
@@ -845,7 +848,7 @@ fn main() {
         }
     }
     r.note("shape_generation_s", json!(t_gen.elapsed().as_secs_f64()));
-    r.counters.add("structs", fam.len() as u64);
+    r.counters.add("structs", selected.len() as u64);
     let r_ref = &r;
     let fam_ref = &fam;
     let bounds_ref = &bounds_by_entry;
@@ -864,7 +867,7 @@ fn main() {
     if outcome_classes < 8 {
         vcore::machinery_error("C16 harness collided on too few outcome classes");
     }
-    r.set_rule("E-ENUM. Per family struct and derive: every subset of its fields missing x every permutation of the rest x {0, 1 extra at every position, 2 extras at every position pair (quick: >4-field structs get 2 extras only with <=1 field missing, 6-field structs only in the order x1,x2)} + one field retyped + Rust-name-instead-of-rename / name-of-a-skipped-field / a repeated name as extra (SerializeRow structs: every field name 2 and 3 times and two names twice, at every position, flattened and renamed fields included - a named bind marker may occur repeatedly; if accepted, every occurrence must carry the field's value and no cell may be missing); serialization x 2|4 value rows x every null pattern of Option fields (quick: null patterns with the first value row) (+ round trip through the struct's own deserializer); deserialization x 2|4 value rows x null patterns of database cells (quick: <=2 nulls or all null, first 6 positions; thorough: every pattern of the first 8 positions) + every UDT truncation point. Oracle cqlref::binder from the attribute documentation. Every accepted SerializeRow case also checks is_empty() == (serialize() wrote zero values). distinct_nontrivial = cases whose database list differs from the declared field list.");
+    r.set_rule("E-ENUM. Per family struct and derive: every subset of its fields missing x every permutation of the rest x {0, 1 extra at every position, 2 extras at every position pair (quick: >4-field structs get 2 extras only with <=1 field missing, 6-field structs only in the order x1,x2)} + one field retyped + Rust-name-instead-of-rename / name-of-a-skipped-field / a repeated name as extra (SerializeRow structs: every field name 2 and 3 times and two names twice, at every position, flattened and renamed fields included - a named bind marker may occur repeatedly; if accepted, every occurrence must carry the field's value and no cell may be missing); serialization x 2|4 value rows x every null pattern of Option fields (quick: null patterns with the first value row) (+ round trip through the struct's own deserializer); deserialization x 2|4 value rows x null patterns of database cells (quick: <=2 nulls or all null, first 6 positions; thorough: every pattern of the first 8 positions) + every UDT truncation point. Thorough tier only: three 7-field structs (by-name UDT, ordered UDT with allow_missing/default_when_null, by-name row): all 5040 orders x every subset missing x 1 extra at every position x 2 extras (x1,x2) at every position pair with <=1 field missing x null patterns with <=3 (UDT) / <=2 (row) nulls or all null among the first 8 cells x 4 value rows + every truncation point. Oracle cqlref::binder from the attribute documentation. Every accepted SerializeRow case also checks is_empty() == (serialize() wrote zero values). distinct_nontrivial = cases whose database list differs from the declared field list.");
     r.set_exhaustive(true);
     r.sample(json!({"struct": fam[0].source, "op": "ser-value", "db": [["c","boolean"],["a","int"],["b","text"]], "expected": "cells emitted at database positions c,a,b; read back by name"}));
     if let Some(e) = fam.iter().find(|e| e.name == "V12") {
